@@ -174,6 +174,7 @@ struct MonWriter {
 
 impl MonWriter {
     fn with<R>(&self, f: impl FnOnce(&mut WriterLog, &mut Vec<String>, &mut Vec<usize>) -> R) -> R {
+        let _p = crate::alloc::pause();
         let mut st = self.st.borrow_mut();
         let st = &mut *st;
         let w = &mut st.writers[self.idx];
@@ -332,20 +333,25 @@ impl ObjectWriterBuilder for Monitor {
             },
             None => None,
         };
-        let mut st = self.st.borrow_mut();
-        let idx = st.writers.len();
-        st.writers.push(WriterLog {
-            idx,
-            endpoint: endpoint.clone(),
-            tsi: *tsi,
-            toi: *toi,
-            meta: meta.clone(),
-            calls: vec![],
-            data: vec![],
-            state: WState::Created,
-            terminal: None,
-            md5_check: self.md5_check,
-        });
+        let idx = {
+            // the harness' own records are not part of the receiver's heap
+            let _p = crate::alloc::pause();
+            let mut st = self.st.borrow_mut();
+            let idx = st.writers.len();
+            st.writers.push(WriterLog {
+                idx,
+                endpoint: endpoint.clone(),
+                tsi: *tsi,
+                toi: *toi,
+                meta: meta.clone(),
+                calls: vec![],
+                data: vec![],
+                state: WState::Created,
+                terminal: None,
+                md5_check: self.md5_check,
+            });
+            idx
+        };
         ObjectWriterBuilderResult::StoreObject(Box::new(MonWriter {
             inner,
             st: self.st.clone(),
@@ -372,6 +378,7 @@ impl ObjectWriterBuilder for Monitor {
         now: SystemTime,
         ext_time: Option<SystemTime>,
     ) {
+        let _p = crate::alloc::pause();
         self.st.borrow_mut().fdts.push(FdtSeen {
             endpoint: endpoint.clone(),
             tsi: *tsi,
